@@ -204,10 +204,10 @@ def lattice_corpus():
             C.append(c)
     PL("lat_nonrec", EV + ".decl r(x:number, v:L<>)\n.output r\nr(x,v) :- e(x,v).\n", m=3)
     PL("lat_two_rules", EV + ".decl f(x:number,v:L)\n.input f\n.decl r(x:number, v:L<>)\n.output r\nr(x,v) :- e(x,v).\nr(x,v) :- f(x,v).\n", m=2)
-    PL("lat_propagate", EV + G2 + ".decl r(x:number, v:L<>)\n.output r\nr(x,v) :- e(x,v).\nr(y,v) :- r(x,v), g(x,y).\n", libs=("max",), m=1, max_loop=12)
-    PL("lat_propagate_join", EV + G2 + ".decl r(x:number, v:L<>)\n.output r\nr(x,v) :- e(x,v).\nr(y,@lub(v,w)) :- r(x,v), g(x,y), e(y,w).\n", libs=("max",), m=1, max_loop=12)
+    PL("lat_propagate", EV + G2 + ".decl r(x:number, v:L<>)\n.output r\nr(x,v) :- e(x,v).\nr(y,v) :- r(x,v), g(x,y), x < y.\n", libs=("max",), m=0, extra_consts=(0, 7), max_loop=12)
+    PL("lat_propagate_join", EV + G2 + ".decl r(x:number, v:L<>)\n.output r\nr(x,v) :- e(x,v).\nr(y,@lub(v,w)) :- r(x,v), g(x,y), e(y,w), x < y.\n", libs=("max",), m=0, extra_consts=(0, 7), max_loop=12)
     PL("lat_two_values", ".decl e3(x:number,a:L,b:L)\n.input e3\n.decl r(x:number, a:L<>, b:L<>)\n.output r\nr(x,a,b) :- e3(x,a,b).\n", m=2)
-    PL("lat_two_values_rec", ".decl e3(x:number,a:L,b:L)\n.input e3\n" + G2 + ".decl r(x:number, a:L<>, b:L<>)\n.output r\nr(x,a,b) :- e3(x,a,b).\nr(y,a,b) :- r(x,a,b), g(x,y).\n", libs=("max",), m=1, max_loop=12)
+    PL("lat_two_values_rec", ".decl e3(x:number,a:L,b:L)\n.input e3\n" + G2 + ".decl r(x:number, a:L<>, b:L<>)\n.output r\nr(x,a,b) :- e3(x,a,b).\nr(y,a,b) :- r(x,a,b), g(x,y), x < y.\n", libs=("max",), m=0, extra_consts=(0, 7), max_loop=12)
     PL("lat_two_keys", ".decl e3(x:number,y:number,v:L)\n.input e3\n.decl r(x:number, y:number, v:L<>)\n.output r\nr(x,y,v) :- e3(x,y,v).\n", m=2)
     return C
 
